@@ -260,6 +260,11 @@ class _ReusablePoolExecutor(ProcessPoolExecutor):
             with self._flags.shutdown_lock:
                 if not (self._flags.broken or self._flags.shutdown):
                     self._adjust_process_count()
+                    # Wake up the executor manager thread so that it waits on
+                    # the sentinels of the new workers too: otherwise the
+                    # abrupt termination of one of them would go unnoticed
+                    # and the loop below would never end.
+                    self._executor_manager_thread_wakeup.wakeup()
             # Wait for the new workers to be alive. Look at the current set of
             # workers at each iteration: a worker that left in the meantime
             # (idle timeout, crash flagging the executor as broken, concurrent
